@@ -921,6 +921,29 @@ func dbGen(r *rand.Rand, n int, length int, withReopen bool) []Case {
 			tags["conflict-window-under-a-lagging-read-mark"] = true
 			tags["concurrent-txns"] = true
 		}
+		if c%5 == 3 {
+			// misuse of a finished handle next to a live transaction: B reads k; A commits a write of another key and is then
+			// asked to Delete / Set k (refused); B writes and commits — accepted, the refused call left no trace in the
+			// oracle's record of A (the model decides)
+			for round := 0; round < 1+r.Intn(2); round++ {
+				k, o := pickKey(r, nk), pickKey(r, nk)
+				b := begin(true)
+				ops = append(ops, fmt.Sprintf("get %d %s", b.idx, hxs(k)))
+				a := begin(true)
+				ops = append(ops, fmt.Sprintf("set %d %s %s", a.idx, hxs(o+"-other"), hxs(fmt.Sprintf("a%d", round))), fmt.Sprintf("commit %d", a.idx))
+				a.open = false
+				if r.Intn(2) == 0 {
+					ops = append(ops, fmt.Sprintf("del %d %s", a.idx, hxs(k)))
+				} else {
+					ops = append(ops, fmt.Sprintf("set %d %s %s", a.idx, hxs(k), hxs("late")))
+				}
+				ops = append(ops, fmt.Sprintf("set %d %s %s", b.idx, hxs("z"), hxs(fmt.Sprintf("b%d", round))), fmt.Sprintf("commit %d", b.idx))
+				b.open = false
+			}
+			tags["finished-txn-misuse"] = true
+			tags["misuse-next-to-a-live-reader"] = true
+			tags["concurrent-txns"] = true
+		}
 		for i := 0; i < length; i++ {
 			x := r.Intn(100)
 			ot := openTxs()
@@ -989,13 +1012,19 @@ func dbGen(r *rand.Rand, n int, length int, withReopen bool) []Case {
 				// use of a finished transaction
 				t := txs[r.Intn(len(txs))]
 				if !t.open {
-					switch r.Intn(3) {
+					switch r.Intn(5) {
 					case 0:
 						ops = append(ops, fmt.Sprintf("set %d %s %s", t.idx, hxs("a"), hxs("late")))
 					case 1:
 						ops = append(ops, fmt.Sprintf("get %d %s", t.idx, hxs("a")))
 					case 2:
 						ops = append(ops, fmt.Sprintf("commit %d", t.idx))
+					case 3:
+						// a Delete / Set on a finished handle, of a key the open transactions work with: refused, and without any
+						// effect on them (their reads, their conflict checks)
+						ops = append(ops, fmt.Sprintf("del %d %s", t.idx, hxs(pickKey(r, nk))))
+					case 4:
+						ops = append(ops, fmt.Sprintf("set %d %s %s", t.idx, hxs(pickKey(r, nk)), hxs("late")))
 					}
 					tags["finished-txn-misuse"] = true
 				}
